@@ -284,6 +284,37 @@ def dag_spec(draw, *, min_nodes: int = 1, max_nodes: int = 8, types=None, fail_m
     return out
 
 
+TWIN_OF = {'CtxSub2': 'CtxSubKid'}       # parent task type -> task type inheriting from it with exactly the same fields
+
+
+@st.composite
+def twin_spec(draw, **kw):
+    """A dag_spec in which some nodes of a parent task type get a TWIN: a node of the inheriting type with exactly the same field
+    values (same name, payload, dependencies), i.e. two tasks that differ in nothing but their type. Each twin is requested, and a
+    reader node that depends on both the original and its twin is requested too."""
+    sp = draw(dag_spec(**{**kw, 'types': list(kw.get('types') or DEFAULT_TYPES) + ['CtxSub2', 'CtxSub2']}))
+    nodes = list(sp['nodes'])
+    req = list(sp['requested'])
+    cands = [n for n in nodes if n['type'] in TWIN_OF]
+    if not cands:
+        base = {'id': len(nodes), 'type': 'CtxSub2', 'name': f'n{len(nodes)}', 'mode': 'ok', 'read': True, 'payload': ['a'], 'deps': {'s': None}}
+        nodes.append(base)
+        cands = [base]
+    for orig in cands[:2]:
+        twin = {**orig, 'id': len(nodes), 'type': TWIN_OF[orig['type']], 'twin_of': orig['id']}
+        nodes.append(twin)
+        order = [{'ref': orig['id'], 'fresh': draw(st.booleans())}, {'ref': twin['id'], 'fresh': False}]
+        if draw(st.booleans()):
+            order.reverse()
+        reader = {'id': len(nodes), 'type': draw(st.sampled_from(['NN', 'N1'])), 'name': f'n{len(nodes)}', 'mode': 'ok', 'read': True, 'payload': None,
+                  'deps': {'list': order} if draw(st.booleans()) else {'dict': {'x': order[0], 'y': order[1]}}}
+        nodes.append(reader)
+        if draw(st.booleans()):
+            req.append({'ref': twin['id'], 'fresh': False})
+        req.insert(draw(st.integers(0, len(req))), {'ref': reader['id'], 'fresh': False})
+    return {**sp, 'nodes': nodes, 'requested': req, 'twins': True}
+
+
 @st.composite
 def fanin_spec(draw, backend: str, fail_modes=('raise:ValueError', 'kill9'), max_leaves: int = 4):
     """Focused shape for the expensive backends: 2-4 leaves (some failing) read by one or two strict-reader parents, the leaves
